@@ -26,6 +26,7 @@ func C32(e *simkern.Env) {
 	maxHedges := tp.Pick(4, 1, 0, 2)
 	headMode := []string{"ranges", "no-ranges", "head-error"}[tp.Weighted([]int{10, 1, 1})]
 	faultsOn := tp.Bool(3, 4)
+	stalls := faultsOn && tp.Bool(1, 4)
 	maxFetch := int64(1 << 20)
 	if tp.Bool(1, 16) {
 		maxFetch = int64(size - 1)
@@ -38,6 +39,7 @@ func C32(e *simkern.Env) {
 	e.Knob("max_hedges", maxHedges)
 	e.Knob("head", headMode)
 	e.Knob("faults_enabled", faultsOn)
+	e.Knob("origin_may_stall_requests_forever", stalls)
 	e.Knob("max_fetch_bytes", maxFetch)
 
 	resource := make([]byte, size)
@@ -56,6 +58,9 @@ func C32(e *simkern.Env) {
 		var history []string
 		seenRange := map[string]int{}
 		nonOK := 0
+		stalled := 0           // requests the origin will never answer
+		var lastAnswerAt time.Duration
+		stalledTooLong := false
 		firstNonOK := 0 // ranges whose first request is answered with something else than the data
 		planned := map[*fetchw.Parked]string{}
 		anomalies := map[string]int{}
@@ -105,7 +110,17 @@ func C32(e *simkern.Env) {
 				if attempt > 1 {
 					wts[0] = 5 // duplicates fail more often than first requests
 				}
+				if stalls {
+					// the origin accepts the request and never answers it
+					kinds = append(kinds, "stall")
+					wts = append(wts, 2)
+				}
 				kind = kinds[tp.Weighted(wts)]
+				if kind == "stall" {
+					sim.Fault("request-stalled-forever")
+					stalled++
+					nonOK++
+				}
 			}
 			planned[p] = kind
 			if attempt == 1 && kind != "ok" {
@@ -139,6 +154,7 @@ func C32(e *simkern.Env) {
 			return out
 		}
 		answer := func(p *fetchw.Parked, kind string) {
+			lastAnswerAt = sim.Now()
 			req, x := p.Req, p.X
 			lo, hi, isRange := fetchw.ParseRange(x.Range)
 			if !isRange || hi >= int64(size) || lo > hi {
@@ -212,12 +228,26 @@ func C32(e *simkern.Env) {
 			MaxSteps:  8000,
 			Done:      sim.RootsDone,
 			IdleLimit: 10 * time.Minute,
+			Check: func() error {
+				// bounded time under a stalled origin: the per-request timeout
+				// (TimeoutSeconds, 60 s here) bounds every request, so once the
+				// other requests are answered the call returns within one timeout
+				// per request it ever issued (a generous bound)
+				if stalled > 0 && !returned && sim.Now()-lastAnswerAt > time.Duration(len(parked)+2)*60*time.Second {
+					stalledTooLong = true
+					return errors.New("stalled")
+				}
+				return nil
+			},
 			Extra: func() []simkern.Action {
 				var acts []simkern.Action
 				und := undecided()
 				for _, p := range und {
 					p := p
 					k := planned[p]
+					if k == "stall" {
+						continue // never answered: only the clock moves
+					}
 					acts = append(acts, simkern.Action{Name: fmt.Sprintf("answer r%d %s", p.X.N, k), Weight: 12, Do: func() { answer(p, k) }})
 				}
 				if len(und) > 0 {
@@ -265,6 +295,9 @@ func C32(e *simkern.Env) {
 				// answers to duplicates went wrong — they must not change the result.
 				e.Violate("failed-duplicate-changed-the-result", site, "%s: returned error %q although the first request of every range is answered correctly (only hedged duplicates failed)", desc, gotErr.Error())
 			}
+		case stalledTooLong:
+			violatedHang = true
+			e.Violate("fetch-never-returns", "stalled-request", "%s: %d request(s) were accepted by the origin and never answered; every other request was answered by t=%v, the configured per-request timeout is 60 s, and at t=%v the call still has not returned", desc, stalled, lastAnswerAt, sim.Now())
 		case reason == simkern.StopDeadlock:
 			// every issued request has been answered (or cancelled), no task is
 			// runnable, no timer is pending, simulated time has been advanced by
@@ -317,11 +350,11 @@ func init() {
 	Registry["C32"] = &Info{
 		Run:   C32,
 		Level: "exploration",
-		Rule:  "each run draws a resource of 6-60 distinct bytes, a chunk size giving 2-6 chunks, the parallelism limit {1,2,3,8}, the hedge multiplier {off,0.5,1,2} and hedge budget, the HEAD behaviour (ranges / no ranges / error) and whether faults are enabled; every chunk request and every hedge is a task parked inside the RoundTripper until the scheduler answers it, in any order, with the answer that was planned for it when it arrived (the k-th request for a range gets that range's k-th planned answer: ok / connection error / short body announced honestly, or streamed without Content-Length under an honest or a full Content-Range / whole body with 200 / wrong status / body cut mid-way; duplicates fail more often than first requests), so that what the fetch would have seen without hedged duplicates is well defined, with simulated latency (5 ms - 3 s clock advances) between answers so that hedges fire; the run ends when the call returns, or when every request is answered, nothing is runnable and ten simulated minutes pass; distinct = distinct schedule+answer fingerprint; non-trivial = a non-ok answer was given or two tasks were runnable at once",
+		Rule:  "each run draws a resource of 6-60 distinct bytes, a chunk size giving 2-6 chunks, the parallelism limit {1,2,3,8}, the hedge multiplier {off,0.5,1,2} and hedge budget, the HEAD behaviour (ranges / no ranges / error) and whether faults are enabled; every chunk request and every hedge is a task parked inside the RoundTripper until the scheduler answers it, in any order, with the answer that was planned for it when it arrived (the k-th request for a range gets that range's k-th planned answer: ok / connection error / short body announced honestly, or streamed without Content-Length under an honest or a full Content-Range / whole body with 200 / wrong status / body cut mid-way; duplicates fail more often than first requests; in a quarter of the fault-injecting runs a request may also be accepted and never answered — the client has no timeout of its own, so only the configured per-request timeout of 60 s bounds it), so that what the fetch would have seen without hedged duplicates is well defined, with simulated latency (5 ms - 3 s clock advances) between answers so that hedges fire; the run ends when the call returns, or when every request is answered, nothing is runnable and ten simulated minutes pass; distinct = distinct schedule+answer fingerprint; non-trivial = a non-ok answer was given or two tasks were runnable at once",
 		Real:  []string{"vgirpc.FetchWithParallelRangeRequests (receive loop, hedging, semaphore, cancellation, reassembly), fetchSimple", "net/http.Client", "testing/synctest clock (hedge thresholds)"},
 		Stub:  []string{"origin behind http.RoundTripper with scheduler-completed requests (fetchw.Origin/Parked)"},
 		Quick: 4000, Thorough: 600000,
-		FaultKinds: []string{"chunk-error", "short-body", "whole-body-200", "wrong-status", "body-cut", "latency", "head-error", "no-range-support"},
+		FaultKinds: []string{"chunk-error", "short-body", "whole-body-200", "wrong-status", "body-cut", "latency", "head-error", "no-range-support", "request-stalled-forever"},
 		Assumptions: []string{
 			"latency is finite: the scheduler eventually answers every issued request; 'bounded time' is decided as: once all issued requests are answered and nothing is runnable the call must have returned (ten further simulated minutes are allowed to pass)",
 			"a short body is announced honestly (Content-Length and Content-Range match the bytes sent); a body cut mid-way is delivered as a read error, as net/http's transport would",
